@@ -49,6 +49,7 @@ static int hv(char c) { return c <= '9' ? c - '0' : (c | 32) - 'a' + 10; }
 static Bytes unhex(const std::string &s)
 {
 	Bytes b;
+	if (s == ".") return b; // explicit empty string
 	// "r<len>:<bytehex>" = <len> repetitions of a byte (for long strings)
 	if (!s.empty() && s[0] == 'r') {
 		size_t c = s.find(':');
@@ -333,7 +334,11 @@ static void runOp(const std::vector<std::string> &w)
 		else rv = F->C_Initialize(NULL);
 		rvOut(rv);
 	}
-	else if (op == "fini") { rv = F->C_Finalize(NULL); rvOut(rv); }
+	else if (op == "fini") {
+		rv = F->C_Finalize(NULL); rvOut(rv);
+		// handle numbers restart after a re-initialisation: names restart with them (DESIGN.md 4.2)
+		if (rv == CKR_OK) { hvals.clear(); hidx.clear(); }
+	}
 	else if (op == "slots") {
 		// canonical slot view: number of slots, and per token label (sorted) its flags
 		CK_ULONG n = 0;
@@ -403,7 +408,15 @@ static void runOp(const std::vector<std::string> &w)
 		CK_SESSION_INFO si;
 		rv = F->C_GetSessionInfo(handleArg(w[1]), &si);
 		rvOut(rv);
-		if (rv == CKR_OK) { kv("state", si.state); kvx("flags", si.flags); kv("slot", si.slotID); }
+		if (rv == CKR_OK) {
+			kv("state", si.state); kvx("flags", si.flags); kv("slot", si.slotID);
+			CK_TOKEN_INFO ti;
+			if (F->C_GetTokenInfo(si.slotID, &ti) == CKR_OK) {
+				std::string l((char *)ti.label, 32);
+				while (!l.empty() && l[l.size() - 1] == ' ') l.erase(l.size() - 1);
+				out += " tok=" + l;
+			}
+		}
 	}
 	else if (op == "login") {
 		// login <hS> <utype> <pinhex|null>
